@@ -117,7 +117,13 @@ func parseFlowDesc(flowDesc, ueIP string) (*ipFilterRule, error) {
 	}
 
 	ipf.direction = fields[1]
-	ipf.proto, _ = parseL4Proto(fields[2])
+
+	proto, err := parseL4Proto(fields[2])
+	if err != nil {
+		return nil, err
+	}
+
+	ipf.proto = proto
 
 	// bring to common intermediate representation
 	xform := func(i int) {
@@ -221,6 +227,9 @@ func parseL4Proto(proto string) (uint8, error) {
 	}
 
 	switch proto {
+	case "ip":
+		// any protocol
+		return reservedProto, nil
 	case "udp":
 		return 17, nil
 	case "tcp":
